@@ -94,23 +94,32 @@ void put_hex( FILE* f, const char* p, size_t n )
 
 uint64_t num( const std::string& s ) { return strtoull( s.c_str(), nullptr, 0 ); }
 
-// a do-nothing compression object (sections are never flagged compressed by
-// the generators, so it is only "present")
-class null_compression : public compression_interface
+// the compression interface installed by "ctor compr" (modelled in coq/Loader.v: codec_byte, inflate_step; coq/Writer.v:
+// section_plan): every byte XOR 0x5A, same length; inflate returns a buffer one byte longer (terminator) and nullptr
+// when handed nullptr
+class xor_compression : public compression_interface
 {
   public:
-    std::unique_ptr<char[]> inflate( const char*, const endianness_convertor*,
-                                     Elf_Xword, Elf_Xword& ) const override
+    std::unique_ptr<char[]> inflate( const char* data, const endianness_convertor*,
+                                     Elf_Xword compressed_size, Elf_Xword& uncompressed_size ) const override
     {
-        return nullptr;
+        if ( data == nullptr )
+            return nullptr;
+        std::unique_ptr<char[]> r( new char[compressed_size + 1] );
+        for ( Elf_Xword i = 0; i < compressed_size; ++i )
+            r[i] = (char)( data[i] ^ 0x5A );
+        r[compressed_size] = 0;
+        uncompressed_size  = compressed_size;
+        return r;
     }
     std::unique_ptr<char[]> deflate( const char* data, const endianness_convertor*,
                                      Elf_Xword decompressed_size,
                                      Elf_Xword& compressed_size ) const override
     {
         std::unique_ptr<char[]> r( new char[decompressed_size ? decompressed_size : 1] );
-        memcpy( r.get(), data, decompressed_size );
-        compressed_size = decompressed_size;
+        for ( Elf_Xword i = 0; data != nullptr && i < decompressed_size; ++i )
+            r[i] = (char)( data[i] ^ 0x5A );
+        compressed_size = data != nullptr ? decompressed_size : 0;
         return r;
     }
 };
@@ -530,7 +539,7 @@ bool exec_one( std::map<uint64_t, World>& worlds, uint64_t& cur, const Tokens& t
         }
         if ( op == "ctor" ) {
             if ( t[1] == "compr" )
-                w.el.reset( new elfio( new null_compression ) );
+                w.el.reset( new elfio( new xor_compression ) );
             else
                 w.el.reset( new elfio() );
         }
